@@ -153,6 +153,21 @@ static void d_ev_opts(const d_opts_t *d, const char *extra) {
      d->o.reuse_logs, d->cache_kind, d->o.max_open_files, d->cmpkind, d->o.paranoid_checks, extra ? extra : "");
 }
 
+/* the key table in rank order (hex), so that projections can map decoded keys to ranks */
+static void d_ev_keys(void) {
+  int r; size_t j;
+  lcdb_verif_begin("keys");
+  lcdb_verif_add("\"cmp\":%d,\"hex\":[", d_cmpkind);
+  for (r = 0; r < NK; r++) {
+    int i = d_rank2idx[r];
+    lcdb_verif_add("%s\"", r ? "," : "");
+    for (j = 0; j < d_keylen[i]; j++) lcdb_verif_add("%02x", d_keybuf[i][j]);
+    lcdb_verif_add("\"");
+  }
+  lcdb_verif_add("]");
+  lcdb_verif_end();
+}
+
 /* ---------------- filesystem helpers ---------------- */
 static void d_rmrf(const char *path) {
   DIR *d = opendir(path); struct dirent *e; char p[1200];
